@@ -181,7 +181,11 @@ func buildGoldenTree(g *goldenTree) (root *mast.Root, nodes map[string][]byte, m
 	return root, e.Store.Snapshot(), md, nil
 }
 
-// GenGolden writes the reference vectors from the library as it is now.
+// GenGolden writes reference vectors from the library as it is now. Its output
+// is NOT meant to overwrite golden/vectors.json: that file is append-only (the
+// seeded sections depend on the key-pool generators, which have evolved since the
+// vectors were frozen); new sections are generated here, verified against the
+// original snapshot and appended by hand.
 func GenGolden(path string) error {
 	var g goldenFile
 	g.Comment = "Reference vectors for C14, generated once by `mastverif golden-gen` from jrhy/mast at the pinned commit (and re-verified against the original snapshot 5b9555e), cross-checked with python3 hashlib.blake2b and verif/internal/ref. Do not regenerate to make a check pass."
@@ -274,6 +278,38 @@ func GenGolden(path string) error {
 		cfg := kinds.Cfg{BF: spec.bf, Format: spec.f, KK: spec.kk, VK: kinds.VStruct}
 		if err := add(fmt.Sprintf("large-%d", i), cfg, keys, vals); err != nil {
 			return err
+		}
+	}
+	// 4. varint boundaries of the binary format: element counts and marshaled lengths 127/128/129, 16383/16384
+	rb := fw.NewRng(77)
+	for _, f := range formats {
+		for _, n := range []int{127, 128, 129, 256} {
+			var keys, vals []interface{}
+			for i := 0; i < n; i++ {
+				keys = append(keys, kinds.UKey{ID: i, L: 0})
+				vl := rb.Range(1, 6)
+				switch i {
+				case 0:
+					vl = 127 - 2
+				case 1:
+					vl = 128 - 2
+				case 2:
+					vl = 129 - 2
+				case 3:
+					vl = 16383 - 2
+				case 4:
+					vl = 16384 - 2
+				}
+				b := make([]byte, vl)
+				for j := range b {
+					b[j] = 'a' + byte(rb.Intn(26))
+				}
+				vals = append(vals, string(b))
+			}
+			cfg := kinds.Cfg{BF: 100, Format: f, KK: kinds.KUser, VK: kinds.VString}
+			if err := add(fmt.Sprintf("boundary-%s-n%d", f, n), cfg, keys, vals); err != nil {
+				return err
+			}
 		}
 	}
 	// layer tables
